@@ -108,7 +108,7 @@ func c13Gen(t *rapid.T, minLen int) c13Case {
 			n = len(c.Files[i-1].Results) // neighbouring files running out together
 		}
 		for j := 0; j < n; j++ {
-			r := vgen.Result(t, fmt.Sprintf("r%d.%d", i, j), vgen.ResultOpts{Consistent: true})
+			r := vgen.Result(t, fmt.Sprintf("r%d.%d", i, j), vgen.ResultOpts{Consistent: true, AllowLargeBody: j < 2 && rapid.IntRange(0, 3).Draw(t, fmt.Sprintf("big%d.%d", i, j)) == 0})
 			r.Attack = fmt.Sprintf("f%d/%d", i, j)
 			f.Results = append(f.Results, r)
 		}
@@ -145,6 +145,9 @@ func TestC13RoundRobin(t *testing.T) {
 		vh.Case("C13.roundrobin", string(sig), nt, labels...)
 		if len(sig) < 1500 {
 			vh.Sample("C13.roundrobin", nt, c)
+		}
+		if len(sig) > 6000 {
+			sig = []byte(fmt.Sprintf("%x", vhHash(sig)))
 		}
 		var err error
 		vh.Guard("C13", "C13.roundrobin", c, func() { err = runC13(c) })
